@@ -968,12 +968,20 @@ fn c17_run(st: &mut Stats) -> Result<(), String> {
 /// are no verdict. Without an argument the CLI picks its line with its own RNG: which line is
 /// replayed varies from run to run, the verdict on a correct tree cannot.
 fn cli_scenario(bin: &str, fen: Option<&str>) -> Result<&'static str, String> {
+    cli_scenario_bytes(bin, fen.map(|f| f.as_bytes()), "C17", "it replays opening-book moves from a position other than the one the book line starts from, or a book move was refused")
+}
+
+/// the same for an arbitrary byte-string argument (C06: the position argument is untrusted input)
+pub fn cli_scenario_bytes(bin: &str, arg: Option<&[u8]>, prop: &str, meaning: &str) -> Result<&'static str, String> {
     use std::io::{BufRead, BufReader};
+    use std::os::unix::ffi::OsStrExt;
     use std::process::{Command, Stdio};
+    let fen = arg.map(|a| String::from_utf8_lossy(a).into_owned());
+    let fen = fen.as_deref();
     let mut cmd = Command::new(bin);
     cmd.arg("on-board");
-    if let Some(f) = fen {
-        cmd.arg(f);
+    if let Some(a) = arg {
+        cmd.arg(std::ffi::OsStr::from_bytes(a));
     }
     cmd.env("RUST_BACKTRACE", "0");
     let mut ch = match cmd.stdin(Stdio::null()).stdout(Stdio::null()).stderr(Stdio::piped()).spawn() {
@@ -1020,12 +1028,12 @@ fn cli_scenario(bin: &str, fen: Option<&str>) -> Result<&'static str, String> {
                 let _ = reader.join();
                 if st.and_then(|s| s.code()) == Some(101) && panic_line.is_some() {
                     return Err(format!(
-                        "C17 chess-cli on-board {} panics before its first search (it replays opening-book moves from a position other than the one the book line starts from, or a book move was refused): {}",
-                        fen.map_or("(no position argument: book from the standard start)".to_string(), |f| format!("`{f}`")),
+                        "{prop} chess-cli on-board {} panics before its first search ({meaning}): {}",
+                        fen.map_or("(no position argument: book from the standard start)".to_string(), |f| format!("`{}` (bytes {:?})", f.escape_debug(), arg.unwrap_or_default())),
                         format!("{} | {}", panic_line.unwrap_or_default(), tail.join(" | ")).chars().take(600).collect::<String>()
                     ));
                 }
-                return Ok("CLI scenario: exited before a search without a panic (no verdict)");
+                return Ok("CLI scenario: process ended without a panic (argument rejected, or nothing to do)");
             }
         }
     }
